@@ -370,6 +370,77 @@ type Old struct{}
 
 func keep() {}
 `},
+	{name: "import-merge-next-decl", marker: "foo", imports: true,
+		patch: "@@\n@@\n+import \"example.com/pkg\"\n\n-foo()\n+pkg.Bar()\n",
+		src: `package a
+
+import "fmt"
+import "strings"
+
+// U0 doc m
+type U0 interface {
+	// U0 inside 1 m
+	M(fmt.Stringer, strings.Builder) // U0 inside 2 m
+} // U0 trailing m
+
+// T1 doc m
+func T1() {
+	foo()
+}
+`},
+	{name: "import-merge-then-second-change", marker: "nosuchname", imports: true, fixed: "T1,T3",
+		patch: "@@\n@@\n+import \"example.com/pkg\"\n\n-foo()\n+pkg.Bar()\n\n@@\nvar x identifier\n@@\n-var x = OLD\n+const x = NEW\n",
+		src: `package a
+
+import "fmt"
+import "strings"
+
+type U0 interface {
+	M(fmt.Stringer, strings.Builder) // U0 mt s
+}
+
+func T1() {
+	foo()
+}
+
+var T3 = OLD
+`},
+	{name: "three-changes-emptied-group-import-delete", marker: "nosuchname", imports: true, fixed: "a,f",
+		patch: "@@\n@@\n-var (\n-  a = 1\n-  b = 2\n-)\n+var a, b = 1, 2\n\n@@\nvar x expression\n@@\n-import \"x/foo\"\n+import \"y/bar\"\n\n-foo.Do(x)\n+bar.Do(x)\n\n@@\nvar x expression\n@@\n-import \"os\"\n\n-os.Exit(x)\n+exit(x)\n",
+		src: `package a // pc i
+import (
+	"os" // os c i
+	"x/foo" // foo c i
+)
+var (
+	a = 1
+	b = 2
+)
+func f() {
+	foo.Do(1) // do i
+	os.Exit(2) // ex i
+}
+
+// keep doc i
+func keep() {} // keep eol i
+`},
+	{name: "two-changes-package-rename", marker: "nosuchname", fixed: "T0,T1",
+		patch: "@@\n@@\n-package a\n+package b\n\n-foo()\n+bar()\n\n@@\nvar x identifier\n@@\n-var (\n-  x = OLD\n-)\n+const (\n+  x = NEW\n+)\n",
+		src: `// H header r
+
+// P doc r
+package a // P trailing r
+// P after r
+
+var (
+	T0 = OLD
+)
+
+func T1() { foo() }
+
+// keep doc r
+func keep() {}
+`},
 	{name: "two-changes", marker: "old", fixed: "gone",
 		patch: "@@\nvar x expression\n@@\n-old(x)\n+mid(x)\n\n@@\n@@\n-func gone() {}\n+var gone = func() {}\n",
 		src: `package p
